@@ -207,13 +207,19 @@ CLAIMED["C09"] = dict(
          "offset+k; never more than limit items (trace: limit 0 = unlimited); skip nothing inside the window; and report the end "
          "only when the input is exhausted or the window is full - for every uint32/int offset and limit and any number of calls "
          "(the contracts are inductive across calls: the synchronisation invariant between the operator's counter and the cursor "
-         "is both required and re-established). The check found and fixed a genuine defect (window restart when offset+limit "
+         "is both required and re-established). For the ordered secondary index: QueryResponseHeap.mergeWithHeap (the k-way merge "
+         "behind both sidx query interfaces) returns its keys in the requested order - ascending, or descending by walking each "
+         "ascending shard response from its end - with at most `limit` rows and the four parallel columns aligned (loop invariants: "
+         "result ordered; its last key precedes the current key of every cursor still in the heap; the top cursor is minimal/"
+         "maximal), and Less/Swap are exactly the comparison and exchange container/heap relies on. The check found and fixed a genuine defect (window restart when offset+limit "
          "exceeds MaxUint32, 3ce76e1, see known_findings.json).",
-    note=COMMON_NOTE + "Assumed: the iterator interface contract (ghost cursor). Narrow claim, said plainly: the 'globally sorted "
-         "across parts, shards, segments and nodes' half is NOT decided here - the merge heaps (pkg/iter/sort, sidx "
-         "QueryResponseHeap, stream/measure result heaps) need a container/heap model and multiset reasoning that is not built, "
-         "the stream limit operator (slices of proto elements), distributed merge (dquery) and the inverted-index sort (bluge) are "
-         "out of reach; only the window half of the property is proved, for the measure row path and the trace path.",
+    note=COMMON_NOTE + "Assumed: the iterator interface contract (ghost cursor); container/heap's Pop / Fix (they keep exactly the "
+         "in-heap cursors, whole and non-nil, and restore a top that is minimal under this heap's Less - stated with a ghost "
+         "in-heap flag per cursor; their comparability preconditions are proved at every call). Narrow claim, said plainly: that "
+         "the sidx merge returns EVERY matching entry exactly once (no loss, no duplicate) is not proved (needs multiset "
+         "reasoning), nor are the wrappers that build the heap (heap.Init), the streaming interface's loops (channels), the other "
+         "merge heaps (pkg/iter/sort, stream/measure result heaps), the stream limit operator (proto elements), distributed merge "
+         "(dquery) and the inverted-index sort (bluge).",
     technique="contract-based deductive verification with ghost cursors on iterator interfaces: VCs from the typed Go AST (govc), "
               "call-by-contract on interface methods, loop invariants; obligations discharged by z3/cvc5",
     design="§3 C09")
